@@ -1,4 +1,5 @@
 import Driver.PM
+import Driver.PML
 import Driver.Expose
 import Driver.Ports
 import Driver.Outline
@@ -17,6 +18,7 @@ import Driver.Status
 def main (args : List String) : IO UInt32 := do
   match args with
   | ["pm"] => DrvPM.main; return 0
+  | ["pml"] => DrvPML.main; return 0
   | ["expose"] => DrvExpose.main; return 0
   | ["ports"] => DrvPorts.main; return 0
   | ["outline"] => DrvOutline.main; return 0
@@ -31,4 +33,4 @@ def main (args : List String) : IO UInt32 := do
   | ["procstack"] => DrvProcStack.main; return 0
   | ["comms"] => DrvComms.main; return 0
   | ["status"] => DrvStatus.main; return 0
-  | _ => IO.eprintln "usage: pmodel <comms|expose|fault|futures|launcher|outline|persist|persister|pm|ports|portsout|procstack|restore|savable|status>"; return 2
+  | _ => IO.eprintln "usage: pmodel <comms|expose|fault|futures|launcher|outline|persist|persister|pm|pml|ports|portsout|procstack|restore|savable|status>"; return 2
